@@ -12,17 +12,19 @@ INVS = "Bounded PreparedOnce FailedNotCached FailedReported ExecAttribution Arit
 # model passes: (name, SPECIFICATION, Execs, MaxLRU, MaxForget, MaxFail, Cancellable, UniqueIds, Plans, PROPERTY)
 # Spec = every interleaving; SpecPOR = local steps first (MC_Prepare.tla); Fair* + Terminates = liveness
 MODEL_QUICK = [
-    ("full_lru1", "Spec", E3, 1, 1, 1, "{}", "TRUE", "PlansCore", ""),
+    ("full_lru1", "Spec", E3, 1, 1, 1, "{}", "TRUE", "PlansQuick", ""),
     ("por_lru2", "SpecPOR", E3, 2, 1, 1, "{}", "FALSE", "PlansMost", ""),
-    ("live_two", "FairSpec", E2, 1, 2, 1, '{"e2"}', "TRUE", "PlansSmall", "Terminates"),
+    ("live_two", "FairSpec", E2, 1, 1, 1, '{"e2"}', "TRUE", "PlansSmall4", "Terminates"),
 ]
 MODEL_THOROUGH = [
-    ("por_lru1_f2", "SpecPOR", E3, 1, 2, 1, "{}", "TRUE", "PlansMost", ""),
+    ("full_lru1_all", "Spec", E3, 1, 1, 1, "{}", "TRUE", "PlansCore", ""),
+    ("por_lru1_f2", "SpecPOR", E3, 1, 2, 1, "{}", "TRUE", "PlansCore", ""),
+    ("live_two_f2", "FairSpec", E2, 1, 2, 1, '{"e2"}', "TRUE", "PlansSmall", "Terminates"),
     ("por_lru2_f2", "SpecPOR", E3, 2, 2, 1, "{}", "TRUE", "PlansMost", ""),
-    ("por_two_batches", "SpecPOR", E3, 2, 1, 0, "{}", "TRUE", "PL7", ""),
     ("full_lru2", "Spec", E3, 2, 1, 1, "{}", "FALSE", "PlansCore", ""),
     ("por_cancel", "SpecPOR", E3, 2, 2, 1, '{"e2"}', "TRUE", "PL2", ""),
-    ("two_lru2", "Spec", E2, 2, 2, 1, '{"e2"}', "FALSE", "PlansSmall", ""),
+    ("two_lru2", "Spec", E2, 2, 2, 1, '{"e2"}', "FALSE", "PlansSmall4", ""),
+    ("two_batches", "Spec", E2, 1, 2, 1, "{}", "TRUE", "PS4", ""),
     ("live_three", "FairSpecPOR", E3, 1, 1, 1, "{}", "TRUE", "PlansCore", "Terminates"),
 ]
 
@@ -250,7 +252,8 @@ def run(ctx):
 
     # ---- 1. everything TLC and the Go compiler can do side by side
     fut_build = pool.submit(vf.build_gotest, ctx, ".", ["common", "c14"])
-    fut_targets = [pool.submit(_target, ctx, t) for t in TARGETS]
+    # quick tier: the five interleaving targets; batches and arity are also reached by the random walks
+    fut_targets = [pool.submit(_target, ctx, t) for t in (TARGETS[:5] if quick else TARGETS)]
     fut_walks = [pool.submit(_walks, ctx, lru, uq, nwalk // 2, ctx.seed * 7919 + lru) for lru, uq in ((1, "TRUE"), (2, "FALSE"))]
     fut_models = [pool.submit(_model_pass, ctx, m, 4 if quick else 6, 900 if quick else 3000, "4g" if quick else "8g")
                   for m in models]
